@@ -454,7 +454,7 @@ def unusable_cases(tier, seed):
 def stages(tier):
     from vlib.runner import EnumStage
     return [HypStage("verify", lambda t: cases(t), run_case, {"quick": 80, "thorough": 2500},
-                     budget_s={"quick": 100, "thorough": 1200}),
+                     budget_s={"quick": 300, "thorough": 1200}),
             EnumStage("unusable-inputs", unusable_cases, run_case,
                       exhaustive={"quick": True, "thorough": True},
-                      budget_s={"quick": 60, "thorough": 60})]
+                      budget_s={"quick": 180, "thorough": 60})]
